@@ -12,6 +12,7 @@ In-repo obligations (tabulator's parsing itself is a dependency: assumed T15, ex
 Bounded only: rename_duplicate_headers, stripper, missing_values_extractor, the file branch of safe_process_datapackage and
 the end-to-end CSV fidelity run.
 """
+from contracts import findings_natives as KF
 from contracts.common import (Item, mk_resource, mk_package2, run_spec, ghost_row, expect_no_raise_or_same, row_transducer, _b,
                               selector)
 from contracts import C14 as K14, C10 as K10, C16 as K16, natives as NAT
@@ -424,4 +425,5 @@ ITEMS = [
     Item('schema_validator', K14.sym_schema_validator, [], 'dataflows/base/schema_validator.py::schema_validator'),
     Item('headers', sym_rename_duplicate_headers, [('de-duplication', nat_headers), ('collision', nat_headers_finding)], P + 'load.py::load.rename_duplicate_headers'),
     Item('csv', None, [('fidelity', nat_csv), ('cast-on-error', nat_cast_on_error)], P + 'load.py::load'),
+    Item('recorded-findings', None, [('bounded', KF.nat_findings_c13)], 'dataflows/processors/load.py::load.safe_process_datapackage'),
 ]
